@@ -5,6 +5,7 @@ import (
 	"go/token"
 	"go/types"
 	"os"
+	"sort"
 	"strings"
 
 	"golang.org/x/tools/go/ssa"
@@ -659,7 +660,29 @@ func (e *Engine) elemRef(c *Config, base *RefV, k *Term) *RefV {
 			}
 			continue
 		}
-		for i, kid := range arr.Kids {
+		if vals, ok := e.feasibleLeaves(c, k, 32); ok {
+			for _, v := range vals {
+				if v < uint64(len(arr.Kids)) {
+					g := And(a.G, Eq(k, BV(v, 64)))
+					if And(g, c.g).IsFalse() {
+						continue
+					}
+					out.Alts = append(out.Alts, RefAlt{g, arr.Kids[v]})
+				}
+			}
+			continue
+		}
+		lo, hi := 0, len(arr.Kids)-1
+		if l, h, ok := interval(k); ok && l >= 0 {
+			if int(l) > lo {
+				lo = int(l)
+			}
+			if h < int64(hi) {
+				hi = int(h)
+			}
+		}
+		for i := lo; i <= hi; i++ {
+			kid := arr.Kids[i]
 			g := And(a.G, Eq(k, BV(uint64(i), 64)))
 			if And(g, c.g).IsFalse() {
 				continue
@@ -1017,4 +1040,108 @@ func (e *Engine) jumpYield(c *Config, f *Frame, to *ssa.BasicBlock) bool {
 		return false
 	}
 	return true
+}
+
+// constLeaves: the set of values a term built from ite / add-of-constants over constants can take
+// (at most max of them), in increasing order.
+func constLeaves(t *Term, max int) ([]uint64, bool) {
+	set := map[uint64]bool{}
+	var walk func(t *Term, add uint64, depth int) bool
+	visits := 0
+	walk = func(t *Term, add uint64, depth int) bool {
+		visits++
+		if depth > 64 || visits > 4096 {
+			return false
+		}
+		switch t.op {
+		case OpConst:
+			set[t.val+add] = true
+			return len(set) <= max
+		case OpIte:
+			return walk(t.args[1], add, depth+1) && walk(t.args[2], add, depth+1)
+		case OpAdd:
+			if len(t.args) == 2 {
+				if t.args[0].IsConst() {
+					return walk(t.args[1], add+t.args[0].val, depth+1)
+				}
+				if t.args[1].IsConst() {
+					return walk(t.args[0], add+t.args[1].val, depth+1)
+				}
+			}
+		}
+		return false
+	}
+	if !walk(t, 0, 0) {
+		return nil, false
+	}
+	out := make([]uint64, 0, len(set))
+	for v := range set {
+		out = append(out, v)
+	}
+	sort.Slice(out, func(i, j int) bool { return out[i] < out[j] })
+	return out, true
+}
+
+
+// leafGuards: for a term built from ite / add-of-constants over constants, the condition under which
+// it takes each of its (at most max) values.
+func leafGuards(t *Term, max int) (map[uint64]*Term, bool) {
+	out := map[uint64]*Term{}
+	visits := 0
+	var walk func(t *Term, add uint64, pc *Term, depth int) bool
+	walk = func(t *Term, add uint64, pc *Term, depth int) bool {
+		visits++
+		if depth > 64 || visits > 4096 {
+			return false
+		}
+		if pc.IsFalse() {
+			return true
+		}
+		switch t.op {
+		case OpConst:
+			v := t.val + add
+			if old, ok := out[v]; ok {
+				out[v] = Or(old, pc)
+			} else {
+				out[v] = pc
+			}
+			return len(out) <= max
+		case OpIte:
+			return walk(t.args[1], add, And(pc, t.args[0]), depth+1) && walk(t.args[2], add, And(pc, Not(t.args[0])), depth+1)
+		case OpAdd:
+			if len(t.args) == 2 {
+				if t.args[0].IsConst() {
+					return walk(t.args[1], add+t.args[0].val, pc, depth+1)
+				}
+				if t.args[1].IsConst() {
+					return walk(t.args[0], add+t.args[1].val, pc, depth+1)
+				}
+			}
+		}
+		return false
+	}
+	if !walk(t, 0, TS.True, 0) {
+		return nil, false
+	}
+	return out, true
+}
+
+// feasibleLeaves: the constant values t can take under c's guard, pruned with the propositional oracle.
+func (e *Engine) feasibleLeaves(c *Config, t *Term, max int) ([]uint64, bool) {
+	lg, ok := leafGuards(t, max)
+	if !ok {
+		return nil, false
+	}
+	var out []uint64
+	for v, pc := range lg {
+		if len(lg) > 1 {
+			g := And(c.g, pc)
+			if g.IsFalse() || semFalse(g) {
+				continue
+			}
+		}
+		out = append(out, v)
+	}
+	sort.Slice(out, func(i, j int) bool { return out[i] < out[j] })
+	return out, true
 }
